@@ -424,7 +424,7 @@ func (rl *Shell) viMatchBracket() {
 	split, index, pos := rl.line.TokenizeBlock(rl.cursor.Pos())
 
 	switch {
-	case len(split) == 0:
+	case len(split) == 0 || index >= len(split):
 		return
 	case pos == 0:
 		adjust = len(split[index])
